@@ -139,4 +139,34 @@ def specList (e : Enzyme) (seq : List Char) (mc lo hi : Nat) (clip semi : Bool) 
   (List.range (seq.length + 1)).flatMap (fun a =>
     (List.range (seq.length + 1)).flatMap (fun b => specAt e seq mc lo hi clip semi a b))
 
+/-! ## All length bounds: `min_length = 0`
+
+`sites` ends with `len(sequence)` a second time when the last residue is a match
+end (or the sequence is empty: `[0, 0]`).  The pair of these two equal sites is a
+(start, end) pair of the double loop with `diff_idx = 1`; its slice is the empty
+string, which passes the length filter exactly when `min_length = 0`.  No other
+pair of sites is out of order, so this is the only difference to `DigestSpec`. -/
+
+/-- `len(sequence)` occurs twice in the list of sites -/
+def endDup (e : Enzyme) (seq : List Char) : Bool :=
+  seq.length == 0 || endsAt e seq seq.length
+
+/-- **Specification of C17 for all length bounds** (`min_length = 0` included): the
+peptides of `DigestSpec`, and the empty peptide when `min_length = 0` and the
+sequence end is itself a match end (or the sequence is empty). -/
+def DigestSpec0 (e : Enzyme) (seq : List Char) (mc lo hi : Nat) (clip semi : Bool) (p : Pep) : Prop :=
+  DigestSpec e seq mc lo hi clip semi p ∨ (lo = 0 ∧ p = [] ∧ endDup e seq = true)
+
+/-- executable enumeration of `DigestSpec0` (driver op `digestspec0`) -/
+def specList0 (e : Enzyme) (seq : List Char) (mc lo hi : Nat) (clip semi : Bool) : List Pep :=
+  specList e seq mc lo hi clip semi ++ (if lo == 0 && endDup e seq then [[]] else [])
+
+/-! ## The entry point called with its defaults -/
+
+/-- `mokapot.digest(sequence)`: `enzyme_regex="[KR]"`, `missed_cleavages=0`,
+`clip_nterm_methionine=False`, `min_length=6`, `max_length=50`, `semi=False`.
+src: mokapot/parsers/fasta.py:263-271 -/
+def digestDefault (seq : List Char) : List Pep :=
+  digest ⟨['K', 'R'], []⟩ seq 0 6 50 false false
+
 end Mk
